@@ -156,6 +156,9 @@ class Case:
         _, self.locale, self.val, self.opts, self.keys = line.split(" ")
         self.ood = False
         self.kind, self.dec, self.written, self.string = self.parse_val(self.val)
+        # the plural rule type the VALUE carries before any NUMBER call (`n<v>/<mfd>/o`: FluentNumber built by the caller
+        # with type = ordinal)
+        self.start_type = "ordinal" if self.val[0] == "n" and self.val.endswith("/o") else "cardinal"
         self.named = None
         if self.opts != "-":
             self.named = []
@@ -219,7 +222,7 @@ class Case:
                 return "ood", None, None, None
             return "string", None, None, t
         if k == "n":
-            v, m = r.split("/")
+            v, m = r.split("/")[:2]
             if not in_domain(v):
                 return "ood", None, None, None
             return "number", v, (None if m == "-" else int(m)), None
@@ -367,7 +370,9 @@ class C12(Base):
                 ["abc", "1 ", " 1", "one", "other", "1,5", "1.5.0", "0x10", "é", "", "١", "1_000", "--1", "1-"])
             return "t" + hx(t)
         if r < 0.8:
-            return "n%s/%s" % (self.gen_decimal(rng, 6), rng.choice(["-", "0", "1", "2", "3", "7", "18"]))
+            # `/o`: the application hands over a number whose options already say type = ordinal
+            return "n%s/%s%s" % (self.gen_decimal(rng, 6) if rng.random() < 0.6 else str(rng.choice([0, 1, 2, 3, 4, 11, 21, 22, 23, 101])),
+                                 rng.choice(["-", "0", "1", "2", "3", "7", "18"]), rng.choice(["", "", "/o"]))
         if r < 0.86:
             return rng.choice(["i", "f"]) + str(rng.randrange(-50, 250)) if rng.random() < 0.7 else "u%d" % rng.randrange(256)
         if r < 0.93:
@@ -590,7 +595,7 @@ class C12(Base):
     def oracle_options(self, c, probe):
         """options after NUMBER's merge according to the property: those given in the call replace the value's,
         all others are kept.  Returns {name: expected-or-None}; None = not pinned (invalid / wrong-kind value given)."""
-        exp = {"type": "cardinal", "style": "decimal", "currency": "-", "currencyDisplay": "symbol",
+        exp = {"type": c.start_type, "style": "decimal", "currency": "-", "currencyDisplay": "symbol",
                "useGrouping": "1", "minimumIntegerDigits": "-",
                "minimumFractionDigits": "-" if c.written is None else str(c.written),
                "maximumFractionDigits": "-", "minimumSignificantDigits": "-", "maximumSignificantDigits": "-"}
